@@ -56,6 +56,8 @@ class C12(Check):
                     js.append(dict(kind='part', N=6, mode=mode, split=list(bits)))
             for size in ((3, 4, 5) if tier == 'quick' else (3, 4, 5, 6)):
                 js.append(dict(kind='seg', size=size, mode=mode))
+                if size <= 5:       # leftover-state probe: the same track object and cost function a second time, after the track was edited in place (its segment costs change)
+                    js.append(dict(kind='seg', size=size, mode=mode, again=True))
             js.append(dict(kind='simp', mode=mode))
             # scale / configuration probes: larger candidate sets with a fixed matrix and two symbolic entries; matrices stored with a narrow numpy dtype
             for N in ((8, 11) if tier == 'quick' else (7, 8, 9, 10, 11, 12)):
@@ -188,13 +190,22 @@ class C12(Check):
             table = {}
             calls = []
 
+            phase = [1]
+
             def cost(track, i, j, *a):
+                if phase[0] == 0:      # before the edit: costs that favour the opposite partition
+                    return float((i * 7 + j * 3) % 5) * (1 if mode == 0 else -1)
                 calls.append((i, j))
                 key = (i, j)
                 if key not in table:
                     table[key] = eng.real('k%d_%d' % (i, j if j >= 0 else 99), -100, 100)
                 return table[key]
             try:
+                if job.get('again'):
+                    phase[0] = 0
+                    seg.optimalSegmentation(tr, cost, None, mode, verbose=False)
+                    tr.getObs(1).position.setX(tr.getObs(1).position.getX() + 5.0)      # the caller edits the track in place: the (position-dependent) costs are now others
+                    phase[0] = 1
                 res = seg.optimalSegmentation(tr, cost, None, mode, verbose=False)
             except Exception as e:
                 ctx.fail('optimalSegmentation raised %s' % type(e).__name__)
@@ -203,7 +214,8 @@ class C12(Check):
             for i in range(N):
                 for j in range(i + 1, N):
                     if (i, j - 1) not in table:
-                        ctx.fail('optimalSegmentation never evaluated the cost of segment (%d,%d)' % (i, j - 1))
+                        ctx.reach()
+                        ctx.fail('optimalSegmentation did not evaluate the cost of a segment of the track it was given')
                         return
                     c[(i, j)] = table[(i, j - 1)].z
             ctx.observe(res=list(res))
@@ -276,12 +288,22 @@ class C12(Check):
             N = size - 1
             tr = make_track(size)
 
+            phase = [1]
+
             def cost(track, i, j, *a):
-                return float(inp.get('k%d_%d' % (i, j if j >= 0 else 99), 0.0))
+                if phase[0] == 0:
+                    return float((i * 7 + j * 3) % 5) * (1 if mode == 0 else -1)
+                return float(inp.get('k%d_%d' % (i, j if j >= 0 else 99), float((i * 5 + j * 11) % 7) - 3.0))      # (costs never asked for on the symbolic path: a fixed non-constant table)
             try:
+                if job.get('again'):
+                    phase[0] = 0
+                    seg.optimalSegmentation(tr, cost, None, mode, verbose=False)
+                    tr.getObs(1).position.setX(tr.getObs(1).position.getX() + 5.0)
+                    phase[0] = 1
                 res = [int(x) for x in seg.optimalSegmentation(tr, cost, None, mode, verbose=False)]
             except Exception as e:
                 return dict(violation='optimalSegmentation raised %s: %s' % (type(e).__name__, e))
+            phase[0] = 1
             c = {(i, j): cost(tr, i, j - 1) for i in range(N) for j in range(i + 1, N)}
             return self._conc_opt(res, N, c, mode, 'optimalSegmentation')
         sim = sys.modules[SIM]
